@@ -192,8 +192,8 @@ def exhaustive(tier, shard, nshards):
                     return out
                 yield {"kind": "list", "base": base, "local": build("L"), "remote": build("R"), "expected": build("LR"),
                        "owners": "".join(owners), "actions": list(acts)}
-    keys = ["p", "q", "r", "s"]
-    bvals = {"p": 1, "q": "text\nline\n", "r": {"x": 1, "y": [1, 2]}, "s": [1, 2, 3]}
+    keys = ["p", "2019", "r", "07"]       # integer-looking keys are ordinary JSON object keys
+    bvals = {"p": 1, "2019": "text\nline\n", "r": {"x": 1, "y": [1, 2]}, "07": [1, 2, 3]}
     for present in itertools.product((True, False), repeat=4):
         base = {k: copy.deepcopy(bvals[k]) for k, p in zip(keys, present) if p}
         for owners in itertools.product("LRN", repeat=4):
